@@ -267,7 +267,9 @@ func safeProveDel(s *gtier.System, p *prover.DeletionParameters) (pr *prover.Pro
 	return s.PS.ProveDeletion(p)
 }
 
-func isPanic(err error) bool { return err != nil && len(err.Error()) >= 6 && err.Error()[:6] == "PANIC:" }
+func isPanic(err error) bool {
+	return err != nil && len(err.Error()) >= 6 && err.Error()[:6] == "PANIC:"
+}
 
 // invalidParams hands the prover something that is not a valid batch for this system.
 func (c *C07) invalidParams(x *engine.Ctx, t *tape.Tape, s *gtier.System, lg *[]string) *engine.Violation {
